@@ -235,58 +235,116 @@ theorem sp_sumToC_aux (σ : Nat → ℝ) (j : Nat) (ages : List (List AffE))
     rw [sp_argVal_unit σ _ (hu a (List.mem_cons_self ..))]
     linarith
 
-theorem sp_sumToC_feas (Q : CType → List ℝ → Prop) (σ : Nat → ℝ) (m : Nat) (c : List AffE) (ages : List (List AffE))
-    (forceEq : Bool) (dummy : Nat)
-    (hu : ∀ a ∈ ages, ∀ j, j < m → sp_UnitCo (a.getD j (constE 0))) :
-    FeasBlocks (conP Q) (sumToC m c ages forceEq dummy).2 ((sumToC m c ages forceEq dummy).1.map (crowVal σ)) ↔
-      ∀ j, j < m →
-        if forceEq then (ages.map fun a => argVal σ (a.getD j (constE 0))).sum = cVal σ c j
-        else (ages.map fun a => argVal σ (a.getD j (constE 0))).sum ≤ cVal σ c j := by
-  unfold sumToC
-  simp only []
-  rw [List.map_map]
-  have hval : ∀ j, j < m → (crowVal σ ∘ fun j =>
-      (⟨if (((ages.flatMap fun a => (a.getD j (constE 0)).co.map (·.1)).map fun id => (id, (-1 : Rat))) ++
-            (c.getD j (constE 0)).co).isEmpty then [(dummy, 0)]
-          else ((ages.flatMap fun a => (a.getD j (constE 0)).co.map (·.1)).map fun id => (id, (-1 : Rat))) ++
-            (c.getD j (constE 0)).co,
-        (c.getD j (constE 0)).off - (ages.map fun a => (a.getD j (constE 0)).off).foldl (· + ·) 0, false⟩ : CRow)) j
+/-- the row of index `j` of `_age_vectors_sum_to_c` -/
+def sp_sumRow (c : List AffE) (ages : List (List AffE)) (dummy : Nat) (j : Nat) : CRow :=
+  ⟨if (((ages.flatMap fun a => (a.getD j (constE 0)).co.map (·.1)).map fun id => (id, (-1 : Rat))) ++
+        (c.getD j (constE 0)).co).isEmpty then [(dummy, 0)]
+      else ((ages.flatMap fun a => (a.getD j (constE 0)).co.map (·.1)).map fun id => (id, (-1 : Rat))) ++
+        (c.getD j (constE 0)).co,
+    (c.getD j (constE 0)).off - (ages.map fun a => (a.getD j (constE 0)).off).foldl (· + ·) 0, false⟩
+
+theorem sp_sumToC_eq (m : Nat) (c : List AffE) (ages : List (List AffE)) (forceEq : Bool) (dummy : Nat) (e : Ech) :
+    sumToC m c ages forceEq dummy e =
+      if forceEq then
+        ((((List.range m).filter (reachedB e)) ++ ((List.range m).filter fun j => !reachedB e j)).map
+            (sp_sumRow c ages dummy),
+          [⟨.zero, ((List.range m).filter (reachedB e)).length⟩] ++
+            if ((List.range m).filter fun j => !reachedB e j).isEmpty then []
+            else [⟨.pos, ((List.range m).filter fun j => !reachedB e j).length⟩])
+      else ((List.range m).map (sp_sumRow c ages dummy), [⟨.pos, m⟩]) := rfl
+
+theorem sp_sumRow_val (σ : Nat → ℝ) (c : List AffE) (ages : List (List AffE)) (dummy : Nat) (j : Nat)
+    (hu : ∀ a ∈ ages, sp_UnitCo (a.getD j (constE 0))) :
+    crowVal σ (sp_sumRow c ages dummy j)
       = cVal σ c j - (ages.map fun a => argVal σ (a.getD j (constE 0))).sum := by
-    intro j hj
-    simp only [Function.comp]
-    have haux := sp_sumToC_aux σ j ages (fun a ha => hu a ha j hj)
-    rw [crowVal_false]
-    split
-    · rename_i hemp
-      have hnil : ((ages.flatMap fun a => (a.getD j (constE 0)).co.map (·.1)).map fun id => (id, (-1 : Rat))) ++
-            (c.getD j (constE 0)).co = [] := by simpa using hemp
-      have h1 := List.append_eq_nil_iff.1 hnil
-      rw [h1.1] at haux
-      unfold cVal
-      rw [show argVal σ (c.getD j (constE 0)) = ((c.getD j (constE 0)).co.map fun p => ((p.2 : Rat) : ℝ) * σ p.1).sum
-        + (((c.getD j (constE 0)).off : Rat) : ℝ) from rfl, h1.2]
-      simp only [List.map_nil, List.sum_nil, List.map_cons, List.sum_cons] at haux ⊢
-      push_cast
-      linarith
-    · rw [List.map_append, List.sum_append]
-      unfold cVal
-      rw [show argVal σ (c.getD j (constE 0)) = ((c.getD j (constE 0)).co.map fun p => ((p.2 : Rat) : ℝ) * σ p.1).sum
-        + (((c.getD j (constE 0)).off : Rat) : ℝ) from rfl]
-      push_cast
-      linarith
+  unfold sp_sumRow
+  have haux := sp_sumToC_aux σ j ages hu
+  rw [crowVal_false]
+  split
+  · rename_i hemp
+    have hnil : ((ages.flatMap fun a => (a.getD j (constE 0)).co.map (·.1)).map fun id => (id, (-1 : Rat))) ++
+          (c.getD j (constE 0)).co = [] := by simpa using hemp
+    have h1 := List.append_eq_nil_iff.1 hnil
+    rw [h1.1] at haux
+    unfold cVal
+    rw [show argVal σ (c.getD j (constE 0)) = ((c.getD j (constE 0)).co.map fun p => ((p.2 : Rat) : ℝ) * σ p.1).sum
+      + (((c.getD j (constE 0)).off : Rat) : ℝ) from rfl, h1.2]
+    simp only [List.map_nil, List.sum_nil, List.map_cons, List.sum_cons] at haux ⊢
+    push_cast
+    linarith
+  · rw [List.map_append, List.sum_append]
+    unfold cVal
+    rw [show argVal σ (c.getD j (constE 0)) = ((c.getD j (constE 0)).co.map fun p => ((p.2 : Rat) : ℝ) * σ p.1).sum
+      + (((c.getD j (constE 0)).off : Rat) : ℝ) from rfl]
+    push_cast
+    linarith
+
+/-- one linear cone over the image of an arbitrary index list -/
+theorem sp_feas_zero_list (Q : CType → List ℝ → Prop) (l : List ℕ) (f : ℕ → ℝ) :
+    FeasBlocks (conP Q) [⟨.zero, l.length⟩] (l.map f) ↔ ∀ t ∈ l, f t = 0 := by
+  rw [feasBlocks_single _ _ _ _ (by simp)]
+  simp only [conP, realP, List.mem_map, forall_exists_index, and_imp, forall_apply_eq_imp_iff₂]
+
+theorem sp_feas_pos_list (Q : CType → List ℝ → Prop) (l : List ℕ) (f : ℕ → ℝ) :
+    FeasBlocks (conP Q) [⟨.pos, l.length⟩] (l.map f) ↔ ∀ t ∈ l, 0 ≤ f t := by
+  rw [feasBlocks_single _ _ _ _ (by simp)]
+  simp only [conP, realP, List.mem_map, forall_exists_index, and_imp, forall_apply_eq_imp_iff₂]
+
+/-- the optional trailing `+` cone of the force-equality layout -/
+theorem sp_feas_pos_opt (Q : CType → List ℝ → Prop) (l : List ℕ) (f : ℕ → ℝ) :
+    FeasBlocks (conP Q) (if l.isEmpty then [] else [⟨.pos, l.length⟩]) (l.map f) ↔ ∀ t ∈ l, 0 ≤ f t := by
+  cases l with
+  | nil => simp
+  | cons a l =>
+    rw [show (a :: l).isEmpty = false from rfl]
+    simp only [Bool.false_eq_true, if_false]
+    exact sp_feas_pos_list Q (a :: l) f
+
+/-- `_age_vectors_sum_to_c`: `Σ_i age_i ≤ c`, with equality at the reached indices under
+    `sum_age_force_equality` -/
+theorem sp_sumToC_feas (Q : CType → List ℝ → Prop) (σ : Nat → ℝ) (m : Nat) (c : List AffE) (ages : List (List AffE))
+    (forceEq : Bool) (dummy : Nat) (e : Ech)
+    (hu : ∀ a ∈ ages, ∀ j, j < m → sp_UnitCo (a.getD j (constE 0))) :
+    FeasBlocks (conP Q) (sumToC m c ages forceEq dummy e).2 ((sumToC m c ages forceEq dummy e).1.map (crowVal σ)) ↔
+      ∀ j, j < m →
+        if (forceEq && reachedB e j) = true then (ages.map fun a => argVal σ (a.getD j (constE 0))).sum = cVal σ c j
+        else (ages.map fun a => argVal σ (a.getD j (constE 0))).sum ≤ cVal σ c j := by
+  rw [sp_sumToC_eq]
+  have hval : ∀ j, j < m → (crowVal σ ∘ sp_sumRow c ages dummy) j
+      = cVal σ c j - (ages.map fun a => argVal σ (a.getD j (constE 0))).sum :=
+    fun j hj => sp_sumRow_val σ c ages dummy j (fun a ha => hu a ha j hj)
   cases forceEq with
   | true =>
-    simp only [if_true]
-    rw [sp_feas_zero]
-    apply forall_congr'; intro j
-    apply imp_congr_right; intro hj
-    rw [hval j hj]
+    simp only [if_true, Bool.true_and]
+    simp only [List.map_append, List.map_map]
+    rw [feasBlocks_append _ _ _ _ _ (by simp), sp_feas_zero_list, sp_feas_pos_opt]
+    simp only [List.mem_filter, List.mem_range, Bool.not_eq_true', and_imp]
     constructor
-    · intro h; linarith
-    · intro h; linarith
+    · rintro ⟨h0, h1⟩ j hj
+      cases hr : reachedB e j with
+      | true =>
+        simp only [if_true]
+        have := h0 j hj hr
+        rw [hval j hj] at this
+        linarith
+      | false =>
+        simp only [Bool.false_eq_true, if_false]
+        have := h1 j hj hr
+        rw [hval j hj] at this
+        linarith
+    · intro h
+      refine ⟨fun j hj hr => ?_, fun j hj hr => ?_⟩
+      · have := h j hj
+        rw [hr] at this
+        simp only [if_true] at this
+        rw [hval j hj]; linarith
+      · have := h j hj
+        rw [hr] at this
+        simp only [Bool.false_eq_true, if_false] at this
+        rw [hval j hj]; linarith
   | false =>
-    simp only [Bool.false_eq_true, if_false]
-    rw [sp_feas_pos]
+    simp only [Bool.false_eq_true, if_false, Bool.false_and]
+    rw [List.map_map, sp_feas_pos]
     apply forall_congr'; intro j
     apply imp_congr_right; intro hj
     rw [hval j hj]
@@ -294,8 +352,34 @@ theorem sp_sumToC_feas (Q : CType → List ℝ → Prop) (σ : Nat → ℝ) (m :
     · intro h; linarith
     · intro h; linarith
 
-theorem sp_sumToC_length (m : Nat) (c : List AffE) (ages : List (List AffE)) (forceEq : Bool) (dummy : Nat) :
-    (sumToC m c ages forceEq dummy).1.length = totalLen (sumToC m c ages forceEq dummy).2 := by
-  simp [sumToC]
+/-- what the soundness proof needs: the AGE vectors sum to at most `c` whatever the setting -/
+theorem sp_sumToC_le (Q : CType → List ℝ → Prop) (σ : Nat → ℝ) (m : Nat) (c : List AffE) (ages : List (List AffE))
+    (forceEq : Bool) (dummy : Nat) (e : Ech)
+    (hu : ∀ a ∈ ages, ∀ j, j < m → sp_UnitCo (a.getD j (constE 0)))
+    (h : FeasBlocks (conP Q) (sumToC m c ages forceEq dummy e).2 ((sumToC m c ages forceEq dummy e).1.map (crowVal σ)))
+    (j : Nat) (hj : j < m) :
+    (ages.map fun a => argVal σ (a.getD j (constE 0))).sum ≤ cVal σ c j := by
+  have := (sp_sumToC_feas Q σ m c ages forceEq dummy e hu).1 h j hj
+  split at this
+  · exact le_of_eq this
+  · exact this
+
+/-- the two filters of the force-equality layout partition `range m` -/
+theorem sp_filter_length_add (m : Nat) (p : Nat → Bool) :
+    ((List.range m).filter p).length + ((List.range m).filter fun j => !p j).length = m := by
+  have h := List.length_eq_length_filter_add (l := List.range m) p
+  rw [List.length_range] at h
+  omega
+
+theorem sp_sumToC_length (m : Nat) (c : List AffE) (ages : List (List AffE)) (forceEq : Bool) (dummy : Nat) (e : Ech) :
+    (sumToC m c ages forceEq dummy e).1.length = totalLen (sumToC m c ages forceEq dummy e).2 := by
+  rw [sp_sumToC_eq]
+  cases forceEq with
+  | false => simp
+  | true =>
+    simp only [if_true, List.length_map, List.length_append, totalLen_append, totalLen_cons, totalLen_nil]
+    cases hr : ((List.range m).filter fun j => !reachedB e j) with
+    | nil => simp
+    | cons a l => simp
 
 end Sageopt.Sage
